@@ -1008,6 +1008,20 @@ func (r *Runner) observeIndex(n string) map[string]any {
 			o["getmany_ids"] = fmt.Sprintf("%v", got)
 		}
 	}
+	// ... and with a list of exactly one id: a stored id comes back alone, a deleted / unknown id gives an
+	// empty result without an error (as it does inside a longer list)
+	for i, id := range probeList {
+		one, err := e.VGetMany(n, realIDs[i:i+1])
+		_, stored := items[id]
+		switch {
+		case err != nil:
+			o["getmany_single"] = fmt.Sprintf("%s: error %v", id, err)
+		case stored && (len(one) != 1 || r.modelID(one[0].ID) != id):
+			o["getmany_single"] = fmt.Sprintf("%s: stored, got %d results", id, len(one))
+		case !stored && len(one) != 0:
+			o["getmany_single"] = fmt.Sprintf("%s: not stored, got %d results", id, len(one))
+		}
+	}
 	o["items"] = items
 	return o
 }
